@@ -8,7 +8,9 @@ import (
 	"math/big"
 	"strings"
 	"sync"
+	"sync/atomic"
 	"testing"
+	"time"
 
 	eckeygen "github.com/bnb-chain/tss-lib/v2/ecdsa/keygen"
 	edkeygen "github.com/bnb-chain/tss-lib/v2/eddsa/keygen"
@@ -533,5 +535,103 @@ func TestC04GeneratedPreParams(t *testing.T) {
 		out.Label += fmt.Sprintf(" generated-preparams=%v", c.GenPre)
 		out.Nontrivial = true
 		return out
+	})
+}
+
+// TestC04RetiringMemberBlockedEnd: an application that collects the retiring members' results late. The old
+// members' result channels are unbuffered and read by nobody, so each retiring member's final call blocks on
+// its report. At that moment its share must already be erased ("old shares are retired last", but before the
+// member reports that it is done). The simulator runs on its own goroutine; this goroutine watches for a call
+// that stays inside an old member while no step completes, judges, then collects the result to release it.
+func TestC04RetiringMemberBlockedEnd(t *testing.T) {
+	r := ev.New(t, "C04")
+	type blocked struct {
+		EdDSA bool
+		Seed  int
+	}
+	cases := []blocked{{true, 0}, {false, 0}}
+	ev.Each(t, r, cases, func(c blocked) ev.Outcome {
+		proto := map[bool]string{true: "eddsa-resharing", false: "ecdsa-resharing"}[c.EdDSA]
+		out := ev.Outcome{Label: "retiring members with unread result channels " + proto, Nontrivial: true}
+		run := fixedRun(proto, 3, 1, 1)
+		sim.IDStyle = ""
+		setGlobalCurve(c.EdDSA, false)
+		q := ref.Secp.N
+		if c.EdDSA {
+			q = ref.Ed.L
+		}
+		var oldEC []eckeygen.LocalPartySaveData
+		var oldED []edkeygen.LocalPartySaveData
+		cfg := sim.ReshareCfg{EdDSA: c.EdDSA, OldT: run.Key.T, NewKeys: detPartyKeys("random256", 3, q, "c04-blocked"), NewT: 1, NoProofMod: true, NoProofFac: true, OldEndUnbuffered: true}
+		if c.EdDSA {
+			data, _, _, _ := run.Key.resolveED()
+			for _, i := range run.Members {
+				oldED = append(oldED, deepCopyED(data[i]))
+			}
+			cfg.OldED = oldED
+		} else {
+			data, _, _ := run.Key.resolveEC()
+			for _, i := range run.Members {
+				oldEC = append(oldEC, deepCopyEC(data[i]))
+			}
+			cfg.OldEC = oldEC
+			cfg.NewPre = preParams()[:3]
+		}
+		net, oldIDs, _, kidx := sim.NewResharing(cfg)
+		net.CallBudget = 24 * time.Hour // blocking is expected here; this test has its own observer
+		xiOf := func(node int) *big.Int {
+			if c.EdDSA {
+				return oldED[kidx[node]].Xi
+			}
+			return oldEC[kidx[node]].Xi
+		}
+		done := make(chan struct{})
+		go func() { net.Run(sim.FIFO{}, 200000); close(done) }()
+		released := 0
+		deadline := time.Now().Add(10 * time.Minute)
+		for {
+			select {
+			case <-done:
+				if released == 0 {
+					out.Label = "uncalibrated " + out.Label + " (no retiring member ever blocked on its report)"
+					out.Nontrivial = false
+				}
+				return out
+			default:
+			}
+			if time.Now().After(deadline) {
+				out.Label = "inconclusive " + out.Label
+				out.Nontrivial = false
+				return out
+			}
+			// a call that stays inside an old member while no step completes for 300 polls of 10 ms
+			steps, node := atomic.LoadInt64(&net.Steps), atomic.LoadInt32(&net.InCall)
+			stuck := node > 0 && int(node-1) < len(oldIDs)
+			for i := 0; i < 300 && stuck; i++ {
+				time.Sleep(10 * time.Millisecond)
+				stuck = atomic.LoadInt64(&net.Steps) == steps && atomic.LoadInt32(&net.InCall) == node
+			}
+			if !stuck {
+				time.Sleep(10 * time.Millisecond)
+				continue
+			}
+			idx := int(node - 1)
+			if xiOf(idx).Sign() != 0 {
+				out.Err = fmt.Errorf("%s: retiring member %d is blocked reporting its completion (nobody reads its result channel yet) while its old share is still intact", proto, idx)
+				out.Sig = "reported-before-erasing:" + proto
+			}
+			// collect the result: the call returns and the run goes on
+			_, ecK, edK, _ := sim.Channels(net.Nodes[idx])
+			select {
+			case <-ecK:
+			case <-edK:
+			case <-time.After(30 * time.Second):
+			}
+			released++
+			if out.Err != nil {
+				<-done
+				return out
+			}
+		}
 	})
 }
